@@ -19,3 +19,19 @@ package state
 //@   trusted
 //@   pure
 //@   ensures th == int64(wc_txth(c))
+
+//@ property C10
+// Ghost clock of the parallel dispatcher: tSpawn = time of the last worker launch, tJoin = time of
+// the join (Realize returns after every launched worker finished), tCheck = time the error latch
+// was last consulted.
+//@ smt all (declare-ghost clk Int)
+//@ smt all (declare-ghost tSpawn Int)
+//@ smt all (declare-ghost tJoin Int)
+//@ smt all (declare-ghost tCheck Int)
+
+//@ func (w WorldVirtualState) Realize()
+//@   iface
+//@   trusted
+//@   modifies *
+//@   opt ghost:tJoin ghost(clk) + 1
+//@   opt ghost:clk ghost(clk) + 1
